@@ -177,9 +177,12 @@ Assign(s) ==
           THEN Step(a, "ok", [heap EXCEPT ![s].par = newpar], dicts)
           ELSE Reject(a, "ValueError")
 
+(* shape attributes kept by a validating descriptor although the constructor does not take them (the polygon a regular polygon stands for) *)
+DerivedShapeFields(cls) == IF cls = "RegularPolygonPix" THEN {"vertices"} ELSE {}
 Delete(s) ==
   /\ "delete" \in Acts /\ s \in Live
-  /\ \E f \in FieldNames(heap[s].cls) : Reject([a |-> "delete", slot |-> s, field |-> f], "AttributeError")   \* shape parameters only
+  /\ \E f \in FieldNames(heap[s].cls) \cup DerivedShapeFields(heap[s].cls) :
+        Reject([a |-> "delete", slot |-> s, field |-> f], "AttributeError")   \* shape parameters, given or derived
 
 MetaHows == {"setitem", "update", "update_kw", "update_same", "update_other", "setdefault", "ior", "ior_other", "pop", "del", "clear", "nested_append"}
 (* ---- dict mutation entry points of RegionMeta / RegionVisual ---- *)
